@@ -15,7 +15,9 @@ TIMES = ["0", "1000", "-500", "1234.5", "2147483647", "2147483648", "nan", "abc"
 TYPES_ODD = ["-1", "256", "2147483647", "-2147483648", "+1", " 1", "x", "", "1.0", "0x1", "2147483648", "-127", "-128", "384", "65537"]
 SOUNDS_ODD = ["-1", "256", "257", "x", "", " 2", "+4", "2147483647", "-2147483648", "2147483648", "-255"]
 EXTRAS = ["", "0:0:0:0:", "1:2:3:50:file.wav", "2:0", "3", "4:5:6", "0:0:0:-5:", "1:1:1:1:a:b", "x:0", "0:x", "1:2:x", "1:2:3:x", ":", "0",
-          "1:2:3:4:", "3:3:2:0:", "0:1", "1:0:0:100:", "2:3:1:2147483648:", " 1: 2 :3: 4 :f", "1:2:3:4:日本.wav", "0:0:0:0", "-1:-1:0:0:"]
+          "1:2:3:4:", "3:3:2:0:", "0:1", "1:0:0:100:", "2:3:1:2147483648:", " 1: 2 :3: 4 :f", "1:2:3:4:日本.wav", "0:0:0:0", "-1:-1:0:0:",
+          # custom sample index at its sign / threshold boundaries (the suffix exists from index 2 on; an index is an i32)
+          "2:0:-1:60:", "1:2:-2147483647:0:", "0:0:-3:0:f.wav", "0:0:1:0:", "0:0:2:0:", "1:1:2147483647:10:", "0:0:-0:0:", "0:0:-2:-2:"]
 PATHS = ["B|1:1", "B|100:100|200:50", "L|10:10", "P|50:50|100:0", "P|50:0|100:0", "P|1:1", "P|1:1|2:2|3:3|4:4", "C|5:5|9:9|9:9|20:20",
          "B|1:1|1:1|2:2", "B|1:1|2:2|2:2", "B|0:0|5:5", "L|5:5|5:5|5:5|9:9", "C|0:0|0:0|3:3", "B|1:1|2:2|L|3:3", "B|1:1|B|2:2", "B|1:1|L|2:2|2:2|3:3|P|4:4|9:0",
          "B|1:1|L", "B", "|", "", "B||1:1", "B|1:1|", "B|x:1", "B|1", "B|1:2:3", "1:1|2:2", "B3|1:1|2:2|3:3", "B0|1:1", "B-1|1:1", "Bx|1:1", "B+2|1:1",
